@@ -120,6 +120,19 @@ def allDiffs (rows : List (String × Seq)) : List (Byte × Byte) :=
 
 def diffCount (first row : Seq) (p : Byte × Byte) : Nat := (diffsOf first row).count p
 
+/-! ### count profile -/
+
+/-- number of rows whose residue at site `j` is exactly `r` (no case folding) -/
+def profileCountAt (rows : List (String × Seq)) (j : Nat) (r : Byte) : Nat :=
+  (rows.filter fun row => row.2[j]? == some r).length
+
+/-- the characters of the profile, in order of first appearance (row after row, left to right) -/
+def profileHeader (rows : List (String × Seq)) : List Byte := firstOccurrences (rows.flatMap Prod.snd)
+
+/-- `Count(r, site)`: defined for the characters occurring in the alignment and `0 ≤ site < L` -/
+def profileCount (rows : List (String × Seq)) (L : Nat) (r : Byte) (site : Int) : Option Nat :=
+  if r ∈ rows.flatMap Prod.snd ∧ 0 ≤ site ∧ site < L then some (profileCountAt rows site.toNat r) else none
+
 /-! ### differences with a reference sequence -/
 
 /-- what a nucleotide character stands for: an IUPAC letter (either case) ↦ its bases (in the order A, C, G, T);
